@@ -42,7 +42,7 @@ func (dummyTurnSocket) Close() error { return nil }
 
 func runManager(c mgrCase, lc localClasses) (sig, detail string) {
 	protoName := c.Network[:3]
-	bindIP := net.ParseIP(c.Address)
+	bindIP := simnet.Resolve(c.Address)
 	nw := simnet.New()
 	nw.ModelReusePort = true
 	nw.LogOff = true
@@ -163,9 +163,9 @@ func TestC20Manager(t *testing.T) {
 	}
 	for _, gen := range []string{"static", "none", "range"} {
 		for _, network := range []string{"udp4", "tcp4", "udp6", "tcp6"} {
-			addrs := []string{"0.0.0.0", "10.9.0.1"}
+			addrs := []string{"0.0.0.0", "10.9.0.1", "relay.test"} // the last one: a host name (legal wherever the generator takes an address)
 			if network[3] == '6' {
-				addrs = []string{"::", "fd00:9::1"}
+				addrs = []string{"::", "fd00:9::1", "relay6.test"}
 			}
 			for _, addr := range addrs {
 				for _, req := range []int{0, histP1, reqMin, reqMax, 1024, 65535} {
